@@ -25,7 +25,14 @@ def string_standin(ctx):
            "char_mapping": {"*": sc.WILDCARD_MULTI, "?": sc.WILDCARD_SINGLE}, "special_char_mapping": {sc.WILDCARD_MULTI: "*", sc.WILDCARD_SINGLE: "?"}}
     kw = {"max_steps": 20000}
 
-    class Str:
+    class _StrMeta(type):
+        """class-level attributes of SigmaString that a classmethod reads through `cls` resolve from the source"""
+        def __getattr__(cls, name):
+            if name.startswith("__"):
+                raise AttributeError(name)
+            return _class_attr(prog, "sigma.types.SigmaString", env, kw, name, cls, None)
+
+    class Str(metaclass=_StrMeta):
         def __init__(self, parts=(), escape=True):
             self.original = "stale%zzz%"
             if parts is None or isinstance(parts, str):  # text: the parser of the source decides the parts
@@ -80,16 +87,9 @@ class StandinSigmaError(Exception):
 StandinSigmaError.__name__ = "SigmaError"
 
 
-def run_per_rule_converter(ctx, fn: str, fin_sub: bool = False, referenced: bool = False, output: bool = True, fail_at: str | None = None,
-                           collect: bool = False, me=None, fail_with: BaseException | None = None, keep_pipeline: bool = False, output_format: str | None = None):
-    """Backend.convert_rule / convert_correlation_rule interpreted (sa.tabulate, Proxy) on a stand-in rule with two queries.
-    fail_at ∈ {None, 'pipeline', 'convert', 'finish', 'finalize'} makes that stage raise a (stand-in) SigmaError.
-    Returns a namespace: ret, raised, stored, finalised_calls, errors, rule, me, error (the injected error object)."""
+def converter_env():
+    """Names of sigma.conversion.base that the per-rule converters (and the helpers a refactoring gives them) refer to."""
     import types as _types
-    from ..tabulate import Proxy, call_method, Raised
-    from ..prog import AnalysisError
-    prog = ctx.prog
-    B = "sigma.conversion.base.Backend"
     SigmaError = StandinSigmaError
 
     class SigmaConversionError(SigmaError):
@@ -104,6 +104,23 @@ def run_per_rule_converter(ctx, fn: str, fin_sub: bool = False, referenced: bool
 
     names = ("EVENT_COUNT", "VALUE_COUNT", "VALUE_SUM", "VALUE_AVG", "VALUE_PERCENTILE", "VALUE_MEDIAN", "TEMPORAL", "TEMPORAL_ORDERED")
     SigmaCorrelationType = _types.SimpleNamespace(**{n_: _Type(n_) for n_ in names})
+    return {"SigmaError": SigmaError, "SigmaConversionError": SigmaConversionError, "SigmaCorrelationType": SigmaCorrelationType,
+            "SigmaExtendedCorrelationCondition": SigmaExtendedCorrelationCondition, "NotImplementedError": NotImplementedError, "Exception": Exception}
+
+
+def run_per_rule_converter(ctx, fn: str, fin_sub: bool = False, referenced: bool = False, output: bool = True, fail_at: str | None = None,
+                           collect: bool = False, me=None, fail_with: BaseException | None = None, keep_pipeline: bool = False, output_format: str | None = None):
+    """Backend.convert_rule / convert_correlation_rule interpreted (sa.tabulate, Proxy) on a stand-in rule with two queries.
+    fail_at ∈ {None, 'pipeline', 'convert', 'finish', 'finalize'} makes that stage raise a (stand-in) SigmaError.
+    Returns a namespace: ret, raised, stored, finalised_calls, errors, rule, me, error (the injected error object)."""
+    import types as _types
+    from ..tabulate import Proxy, call_method, Raised
+    from ..prog import AnalysisError
+    prog = ctx.prog
+    B = "sigma.conversion.base.Backend"
+    SigmaError = StandinSigmaError
+    env = converter_env() if me is None else object.__getattribute__(object.__getattribute__(me, "_k"), "_p")[2]
+    SigmaCorrelationType = env.get("SigmaCorrelationType") or converter_env()["SigmaCorrelationType"]
     error = fail_with if fail_with is not None else SigmaError("injected failure")
     stored: list = []
     finalised_calls: list = []
@@ -139,8 +156,6 @@ def run_per_rule_converter(ctx, fn: str, fin_sub: bool = False, referenced: bool
 
     pipeline = _types.SimpleNamespace(apply=lambda rule_: stage("pipeline", None), state={})
     corr = lambda rule_, fmt, method: stage("convert", ["c0", "c1"])  # noqa: E731
-    env = {"SigmaError": SigmaError, "SigmaConversionError": SigmaConversionError, "SigmaCorrelationType": SigmaCorrelationType,
-           "SigmaExtendedCorrelationCondition": SigmaExtendedCorrelationCondition, "NotImplementedError": NotImplementedError, "Exception": Exception}
     # with the pipeline initialisation of the source in play, a missing attribute of the backend (no pipeline yet) is a behaviour
     IK = {"behaviours": (SigmaError,) + ((type(fail_with),) if fail_with is not None else ()) + ((AttributeError, KeyError) if keep_pipeline else ()), "max_steps": 8000}
     me_given = me
@@ -353,7 +368,7 @@ def backend_with_real_init(ctx, user_pipeline=True):
     from ..tabulate import Proxy, call_method
     prog = ctx.prog
     B = "sigma.conversion.base.Backend"
-    env: dict = {"SigmaError": StandinSigmaError, "NotImplementedError": NotImplementedError, "Exception": Exception}
+    env: dict = converter_env()
     IK = {"behaviours": (StandinSigmaError, KeyError), "max_steps": 8000}
     inits: list = []
     attrs = {"backend_processing_pipeline": PipeStandin(["backend"], {"from_backend": 1}), "processing_pipeline": PipeStandin(["user"], {"from_user": 1}) if user_pipeline else None,
